@@ -358,7 +358,20 @@ def run_combine_scenario(p, wd):
         gen.write_plotfile(ob_path, ob)
     else:
         ob_path = None
-    for desc_, bad in (("different level count", other_path), ("different boxes", ob_path)):
+    # the same physical decomposition at twice the resolution: same level count, same physical box bounds, other index ranges
+    fine = gen.make_pf(ndims=3, names=["zeta"], n0=tuple(2 * n for n in pf1.n0), geo_lo=pf1.geo_lo, dx0=tuple(d / 2 for d in pf1.dx0),
+                       levels=[[(tuple(2 * x for x in lo), tuple(2 * x + 1 for x in hi)) for lo, hi in lvb] for lvb in pf1.levels],
+                       nfiles=1, seed=7, time=pf1.time)
+    fine_path = os.path.join(wd, "plt_same_boxes_finer_cells")
+    gen.write_plotfile(fine_path, fine)
+    # the same index ranges on another physical domain (other origin)
+    moved = gen.make_pf(ndims=3, names=["zeta"], n0=pf1.n0, geo_lo=tuple(g + 3.0 for g in pf1.geo_lo), dx0=pf1.dx0, levels=pf1.levels,
+                        nfiles=1, seed=8, time=pf1.time)
+    moved_path = os.path.join(wd, "plt_same_indices_other_origin")
+    gen.write_plotfile(moved_path, moved)
+    for desc_, bad in (("different level count", other_path), ("different boxes", ob_path),
+                       ("same physical boxes, finer cells (other index ranges)", fine_path),
+                       ("same index ranges, other physical domain", moved_path)):
         if bad is None:
             continue
         out = os.path.join(wd, "comb_refused_" + desc_.replace(" ", "_"))
